@@ -51,7 +51,7 @@ func attr(ev sdk.Event, key string) (string, bool) {
 
 // blockHarness delivers n Ethereum transactions of symbolic classes in one block context through the real EVM
 // lane and then runs the real x/evm EndBlock.
-func blockHarness(n int) {
+func blockHarness(n int, allowed ...[]int) {
 	model.ResetScripts()
 	model.ResetTxs()
 	w := &World{SenderBal: rich, ContrBal: big.NewInt(5), ContrBalO: big.NewInt(6), ThirdBal: big.NewInt(7), Rest: []*big.Int{big.NewInt(0), big.NewInt(0)}, BaseFee: big.NewInt(3)}
@@ -63,7 +63,12 @@ func blockHarness(n int) {
 	admitted := 0
 	for i := 0; i < n; i++ {
 		pfx := "tx" + string(rune('0'+i))
-		b := &blockTx{class: verif.Choice(pfx+".class", nTxClasses)}
+		b := &blockTx{}
+		if i < len(allowed) && allowed[i] != nil {
+			b.class = allowed[i][verif.Choice(pfx+".class", len(allowed[i]))]
+		} else {
+			b.class = verif.Choice(pfx+".class", nTxClasses)
+		}
 		b.nonce = e.EK.GetNonce(e.Ctx, SenderAddr)
 		t := &Tx{To: ContractAddr, Nonce: b.nonce, GasLimit: 200000, GasPrice: big.NewInt(10), Value: big.NewInt(0), Data: []byte{0x01, 0x00}}
 		sc := &model.Script{GasUse: verif.Uint64(pfx + ".gasUse")}
@@ -172,3 +177,10 @@ func H_C13_1_Block2() { blockHarness(2) }
 
 // thorough tier: three transactions.
 func H_C13_1b_Block3() { blockHarness(3) }
+
+// H_C13_1c_Sandwich (quick tier): three transactions, the first and the last emitting logs (call with 0-2 logs; the first
+// also a creation), any of the 8 classes in between: the bookkeeping of a transaction must not depend on what the one
+// before it left behind (a discarded or failed transaction in the middle).
+func H_C13_1c_Sandwich() {
+	blockHarness(3, []int{kCallLogs, kCreateOK}, nil, []int{kCallLogs})
+}
